@@ -864,17 +864,18 @@ static inline int safec_out_char(char character, void *buffer, size_t idx,
     (void)buffer;
     (void)idx;
     (void)maxlen;
-    if (character) {
 #ifndef __KERNEL__
-        return putchar(character);
+    /* a null character is output as well ("%c" with 0), as printf does;
+       the engine emits no terminator through this callback */
+    return putchar(character);
 #else
+    if (character) {
         int rc = 0;
         rc = slprintf("%c", character);
         return rc;
-#endif
-    }
-    else
+    } else
         return 0;
+#endif
 }
 
 #ifndef __KERNEL__
